@@ -272,6 +272,7 @@ class DirectedAdapter(H.Adapter):
     keep_edges_allowed = False
     has_add_nodes_metadata = False
     dup_check_in_weighted_batch = False
+    other_containers = True
 
     def fresh_record(self, spec, U):
         ns = dedupe([U[i % len(U)] for i in spec["ns"]])
@@ -331,7 +332,8 @@ class DirectedAdapter(H.Adapter):
             kw["weight"] = w
         if meta is not None:
             kw["metadata"] = meta
-        h.add_edge(self._t(e), **kw)
+        conv = {"list": list, "frozenset": frozenset}.get(self.container, tuple)
+        h.add_edge((conv(e[0]), conv(e[1])), **kw)
 
     def r_add_edges(self, h, es, ws, metas):
         kw = {}
